@@ -141,7 +141,7 @@ theorem observing_task_stops {c : Cfg} {s s' : BState} {i : Nat} (hs : s.cancell
     (pcOf s i = some .ctxCheck →
         s'.slots = setSlot s.slots i Conc.cancelledSlot ∧ i ∉ ids s' ∧ s'.log = s.log) ∧
     (∀ k last, pcOf s i = some (.loopTop k last) → k < c.budget →
-        s' = setPc s i (.store (newErrorResult (.ctx c.kind)))) :=
+        s' = setPc s i (.store (newErrorResult (.ctx c.kind)) true)) :=
   ⟨fun hpc => ctxCheck_cancelled hs hpc h, fun _ _ hpc hk => loopTop_cancelled hs hk hpc h⟩
 
 /-- **The run never hangs.** (i) Every step of every schedule strictly decreases `measure` (unsubmitted + queued
